@@ -8,6 +8,16 @@ def run(ctx):
     args = ["-thorough"] if not ctx.quick else []
     trace, _ = routerfam.run_mode(ctx, drv, "c08", args)
     routerfam.validate(ctx, trace, only=["Inv_C08_", "Unconsumable"], require_events=300)
+    # last clause at the memory cache: a store-if-absent (error responses) never replaces an entry that is present,
+    # also when a plain store of the same key runs at the same time (MemCache.tla: NxNeverDisplaces)
+    ctx.exhaustive("MemCache_MC", "MemCache_MC", timeout=900)
+    r = vf.tlc("MemCache_MC", cfg="MemCache_bug_nxrace", timeout=600)
+    if r.ok or r.violated != "NxNeverDisplaces":
+        raise vf.MachineryError("sensitivity run MemCache_bug_nxrace was not rejected")
+    cdrv = vf.build_driver("cachedrv")
+    t = ctx.path("pairs.ndjson")
+    ctx.driver(cdrv, ["-out", t, "-pairs", 25000 if ctx.quick else 400000], timeout=900)
+    ctx.validate("MemCacheTrace", t, lambda ev, inv: "%s:memcache" % inv, only=["Inv_C08_", "Unconsumable"], require_events=1000)
     ctx.assumptions += [
         "timed scenarios run one per router instance at low load; all bounds are one-sided with the 2 s cache-clock granularity the property grants",
         "elapsed time since the fetch is bounded from below by (client send instant - the proxy's own stored instant from the hook)",
